@@ -135,7 +135,7 @@ def _cook_check(repo, rep):
     rep.check(ok_skip, "R16.1", site, "an unchanged, compiled template is "
               "neither read nor compiled again", construct="no-recompile",
               where=wh)
-    t = " ".join(src(s) for s in ast.walk(f.node) if isinstance(s, ast.stmt))
+    t = L.text(f.node)
     rep.check("body = self.read()" in t and "self.cook(body)" in t and
               t.index("body = self.read()") < t.index("self.cook(body)"),
               "R16.1", site, "recompilation uses a fresh read of the file",
@@ -148,7 +148,7 @@ def _cook_check(repo, rep):
               "compiled flag is consulted", construct="check-order", where=wh,
               detail=str(tests))
     rd = repo.func(BF + "read")
-    t = " ".join(src(s) for s in ast.walk(rd.node) if isinstance(s, ast.stmt))
+    t = L.text(rd.node)
     top = [src(x) for x in rd.node.body]
     rep.check("self.content_type = content_type or self.default_content_type"
               in top and "self.content_encoding = encoding" in top, "R16.1",
@@ -156,18 +156,17 @@ def _cook_check(repo, rep):
               "(nothing of the old version survives)",
               construct="read-refresh", where=L.where(rd))
     mt = repo.func(BF + "mtime")
-    t = " ".join(src(s) for s in ast.walk(mt.node) if isinstance(s, ast.stmt))
+    t = L.text(mt.node)
     rep.check("os.path.getmtime(filename)" in t, "R16.1", mt.qualname,
               "the modification time is the file's", construct="mtime",
               where=L.where(mt))
     sf = repo.func(BF + "_set_filename")
-    t = " ".join(src(s) for s in sf.node.body)
+    t = L.text(sf.node, body_only=True)
     rep.check("self._v_last_read = None" in t and "self._cooked = False" in t,
               "R16.1", sf.qualname, "assigning a file name invalidates the "
               "compiled state", construct="set-filename", where=L.where(sf))
     init = repo.func(BF + "__init__")
-    t = " ".join(src(s) for s in ast.walk(init.node)
-                 if isinstance(s, ast.stmt))
+    t = L.text(init.node)
     rep.check("self.filename = filename" in t and
               "if auto_reload is not None: self.auto_reload = auto_reload"
               in t, "R16.1", init.qualname, "auto_reload is taken from the "
@@ -207,6 +206,39 @@ def _retire(repo, rep):
                   "stale entry points are removed before the template is "
                   "flagged as compiled", construct="retire-before-flag",
                   where=wh)
+        # unconditional: every compilation retires, also the first one of
+        # an instance (a file template clears its flag before re-cooking)
+        guard = None
+        for n in ast.walk(f.node):
+            is_ret = (isinstance(n, ast.Call) and (
+                src(n.func) == "delattr" or (
+                    src(n.func).endswith(".pop") and
+                    "__dict__" in src(n.func)))) or (
+                        isinstance(n, ast.Delete) and "__dict__" in src(n))
+            if not is_ret:
+                continue
+            a = getattr(n, "_parent", None)
+            prev = n
+            while a is not None and a is not f.node:
+                cond = None
+                if isinstance(a, (ast.If, ast.While)) and prev is not a.test:
+                    cond = a.test
+                elif isinstance(a, ast.IfExp) and prev is not a.test:
+                    cond = a.test
+                elif isinstance(a, ast.ExceptHandler):
+                    cond = a.type or a
+                if cond is not None:
+                    state = [x for x in ast.walk(cond)
+                             if isinstance(x, ast.Attribute)
+                             and src(x.value) == "self"
+                             and x.attr != "__dict__"]
+                    if state or isinstance(a, ast.ExceptHandler):
+                        guard = src(cond)
+                prev, a = a, getattr(a, "_parent", None)
+        rep.check(guard is None, "R16.2", site, "stale entry points are "
+                  "retired on every compilation, not depending on template "
+                  "state", construct="retire-unconditional", where=wh,
+                  detail="retire step is guarded by %s" % guard)
         # the filter: _render prefix and not among the new functions
         ok = False
         for n in ast.walk(f.node):
@@ -217,13 +249,13 @@ def _retire(repo, rep):
         rep.check(ok, "R16.2", site, "exactly the _render* attributes absent "
                   "from the new program are removed",
                   construct="retire-filter", where=wh)
-    t = " ".join(src(s) for s in ast.walk(f.node) if isinstance(s, ast.stmt))
+    t = L.text(f.node)
     rep.check("init = program[PROGRAM_NAME]" in t and
               "functions = init(*builtins)" in t, "R16.2", site,
               "the published functions are those of the program just "
               "compiled", construct="functions-source", where=wh)
     nm = repo.func(ZT + "Macros.names")
-    t = " ".join(src(s) for s in ast.walk(nm.node) if isinstance(s, ast.stmt))
+    t = L.text(nm.node)
     rep.check("for name in self.template.__dict__:" in t and
               "name.startswith('_render_')" in t, "R16.2", nm.qualname,
               "macro names are exactly the published _render_<name> entries",
@@ -239,12 +271,12 @@ def _loader(repo, rep):
     rep.check(deco == ["cache"], "R16.3", site, "load is memoised",
               construct="memoised", where=wh, detail=str(deco))
     c = repo.func("chameleon.loader.cache")
-    t = " ".join(src(s) for s in ast.walk(c.node) if isinstance(s, ast.stmt))
+    t = L.text(c.node)
     rep.check("template = self.registry.get(args)" in t and
               "self.registry[args] = template = func(self, *args, **kwargs)"
               in t, "R16.3", c.qualname, "the same arguments return the same "
               "instance", construct="registry", where=L.where(c))
-    t = " ".join(src(s) for s in ast.walk(f.node) if isinstance(s, ast.stmt))
+    t = L.text(f.node)
     rep.check("if self.default_extension is not None and '.' not in spec: "
               "spec += self.default_extension" in t, "R16.3", site,
               "the default extension is added only to names without a dot",
@@ -294,15 +326,14 @@ def _loader(repo, rep):
               "package-relative specs (package:path) are honoured",
               construct="package-spec", where=wh)
     ini = repo.func(LD + "__init__")
-    t = " ".join(src(s) for s in ast.walk(ini.node)
-                 if isinstance(s, ast.stmt))
+    t = L.text(ini.node)
     rep.check("self.default_extension = '.%s' % default_extension.lstrip('.')"
               in t, "R16.3", ini.qualname, "the default extension is "
               "normalised to one leading dot", construct="extension-dot",
               where=L.where(ini))
     # relative search path first
     pf = repo.func(ZT + "PageTemplateFile.__init__")
-    t = " ".join(src(s) for s in ast.walk(pf.node) if isinstance(s, ast.stmt))
+    t = L.text(pf.node)
     rep.check("search_path.insert(0, path)" in t and
               "if self.prepend_relative_search_path:" in t and
               "path = dirname(self.filename)" in t, "R16.3", pf.qualname,
@@ -323,7 +354,7 @@ def _loader(repo, rep):
               where=L.where(pf))
     et = repo.cls(ZT + "PageTemplateFile").attrs.get("expression_types")
     bi = repo.func(ZT + "PageTemplateFile._builtins")
-    t = " ".join(src(s) for s in bi.node.body)
+    t = L.text(bi.node, body_only=True)
     rep.check("d['__loader'] = self._loader" in t, "R16.3", bi.qualname,
               "the bound loader is what the load: expression calls",
               construct="loader-builtin", where=L.where(bi))
